@@ -21,9 +21,10 @@ inductive R where
 def panicsOnSameKind (k : String) : Bool :=
   k == "Constraint" || k == "Pat::Struct" || k == "Pat::TupleStruct"
 
-/-- `Path` that is one argument-free segment spelled like a parameter (code: `matches_param_ident`) -/
+/-- `Path` without leading `::` that is one argument-free segment spelled like a parameter
+    (code: `matches_param_ident`, i.e. `syn::Path::get_ident` + prefix test) -/
 def pathParam (paramPrefix : String) : T → Option String
-  | .node "Path" [] [_, .node "List" [] [.node "PathSegment" [] [.node "Ident" [n] [], .node "PathArguments::None" [] []]]] =>
+  | .node "Path" [] [.node "IgnL" [] [.node "None" [] []], .node "List" [] [.node "PathSegment" [] [.node "Ident" [n] [], .node "PathArguments::None" [] []]]] =>
       if n.startsWith paramPrefix then some n else none
   | _ => none
 
